@@ -408,13 +408,13 @@ class CodeGenEnvironment(Environment):
             auto_reload=False,
             cache_size=400,
         )
+        self._allow_replacements = allow_filter_test_or_use_query_overwrite
+
         if additional_globals is not None:
             for global_name, global_value in additional_globals.items():
                 if global_name in self.RESERVED_GLOBAL_NAMESPACES or global_name in self.RESERVED_GLOBAL_NAMES:
                     raise RuntimeError(f'Additional global "{global_name}" uses a reserved global name')
-                self.globals[global_name] = global_value
-
-        self._allow_replacements = allow_filter_test_or_use_query_overwrite
+                self._add_to_environment(global_name, global_value, self.globals)
 
         for global_namespace in self.RESERVED_GLOBAL_NAMESPACES:
             self.globals[global_namespace] = LanguageTemplateNamespace()
